@@ -240,7 +240,8 @@ inline bool nikolaev_scq::dequeue(std::uint64_t& value, std::size_t capacity, st
 }
 
 inline void nikolaev_scq::catchup(std::uint64_t tail, std::uint64_t head) {
-  while (!_tail.compare_exchange_weak(tail, head, std::memory_order_relaxed)) {
+  // keep the finalized flag (LSB of _tail): moving _tail forward must not re-open a finalized queue
+  while (!_tail.compare_exchange_weak(tail, head | (tail & finalized), std::memory_order_relaxed)) {
     head = _head.load(std::memory_order_relaxed);
     if (diff(tail, head) >= 0) {
       break;
